@@ -45,10 +45,10 @@ func specHasAddr(h *TracerouteHop) bool { return len(h.IPAddress) != 0 }
 //@ safety C17 C16
 //@ requires[pre.wf]       r != nil && forall(i, 0, len(r.Traceroute.Runs), forall(j, 0, len(r.Traceroute.Runs[i].Hops), r.Traceroute.Runs[i].Hops[j] != nil && allocated(r.Traceroute.Runs[i].Hops[j])))
 //@ requires[pre.sep]      forall(i, 0, len(r.Traceroute.Runs), forall(k, 0, len(r.Traceroute.Runs), i != k && len(r.Traceroute.Runs[i].Hops) > 0 && len(r.Traceroute.Runs[k].Hops) > 0 ==> r.Traceroute.Runs[i].Hops != r.Traceroute.Runs[k].Hops))
-//@ ensures[C17.runs]      len(r.Traceroute.Runs) == old(len(r.Traceroute.Runs))
-//@ ensures[C17.len]       forall(i, 0, len(r.Traceroute.Runs), len(r.Traceroute.Runs[i].Hops) == old(len(r.Traceroute.Runs[i].Hops)))
-//@ ensures[C16+C17.redact]    forall(i, 0, len(r.Traceroute.Runs), forall(j, 0, len(r.Traceroute.Runs[i].Hops), old(specPrivate(r.Traceroute.Runs[i].Hops[j].IPAddress)) ==> specRedacted(r.Traceroute.Runs[i].Hops[j], old(r.Traceroute.Runs[i].Hops[j].TTL))))
-//@ ensures[C17.keep]      forall(i, 0, len(r.Traceroute.Runs), forall(j, 0, len(r.Traceroute.Runs[i].Hops), !old(specPrivate(r.Traceroute.Runs[i].Hops[j].IPAddress)) ==> r.Traceroute.Runs[i].Hops[j] == old(r.Traceroute.Runs[i].Hops[j])))
+//@ ensures[C03+C17.runs]    len(r.Traceroute.Runs) == old(len(r.Traceroute.Runs))
+//@ ensures[C03+C17.len]     forall(i, 0, len(r.Traceroute.Runs), len(r.Traceroute.Runs[i].Hops) == old(len(r.Traceroute.Runs[i].Hops)))
+//@ ensures[C03+C16+C17.redact]    forall(i, 0, len(r.Traceroute.Runs), forall(j, 0, len(r.Traceroute.Runs[i].Hops), old(specPrivate(r.Traceroute.Runs[i].Hops[j].IPAddress)) ==> specRedacted(r.Traceroute.Runs[i].Hops[j], old(r.Traceroute.Runs[i].Hops[j].TTL))))
+//@ ensures[C03+C17.keep]    forall(i, 0, len(r.Traceroute.Runs), forall(j, 0, len(r.Traceroute.Runs[i].Hops), !old(specPrivate(r.Traceroute.Runs[i].Hops[j].IPAddress)) ==> r.Traceroute.Runs[i].Hops[j] == old(r.Traceroute.Runs[i].Hops[j])))
 //@ ensures[C17.noprivate] forall(i, 0, len(r.Traceroute.Runs), forall(j, 0, len(r.Traceroute.Runs[i].Hops), !specPrivate(r.Traceroute.Runs[i].Hops[j].IPAddress)))
 //@ modifies elemtype(*TracerouteHop)
 //@ loop 1 invariant[o.done]  forall(a, 0, i, forall(b, 0, len(r.Traceroute.Runs[a].Hops), ite(old(specPrivate(r.Traceroute.Runs[a].Hops[b].IPAddress)), specRedacted(r.Traceroute.Runs[a].Hops[b], old(r.Traceroute.Runs[a].Hops[b].TTL)), r.Traceroute.Runs[a].Hops[b] == old(r.Traceroute.Runs[a].Hops[b]))))
@@ -59,7 +59,8 @@ func specHasAddr(h *TracerouteHop) bool { return len(h.IPAddress) != 0 }
 //@ loop 2 invariant[i.cur1]  forall(b, 0, j, ite(old(specPrivate(r.Traceroute.Runs[i].Hops[b].IPAddress)), specRedacted(r.Traceroute.Runs[i].Hops[b], old(r.Traceroute.Runs[i].Hops[b].TTL)), r.Traceroute.Runs[i].Hops[b] == old(r.Traceroute.Runs[i].Hops[b])))
 //@ loop 2 invariant[i.cur2]  forall(b, j, len(r.Traceroute.Runs[i].Hops), r.Traceroute.Runs[i].Hops[b] == old(r.Traceroute.Runs[i].Hops[b]))
 
-// specRedacted: a placeholder entry that keeps only the TTL.
+// specRedacted: a placeholder entry that keeps only the TTL. (The redaction clauses also serve C03: the finished hop list
+// still has one entry per TTL, in order — redaction neither renumbers nor drops entries.)
 func specRedacted(h *TracerouteHop, ttl int) bool {
 	return h != nil && h.TTL == ttl && len(h.IPAddress) == 0 && h.IPAddress == nil && h.RTT == 0 && !h.Reachable &&
 		h.ReverseDns == nil && !h.IsDest && h.Port == 0 && h.ICMPType == 0 && h.ICMPCode == 0
